@@ -14,4 +14,8 @@ type propSpec struct {
 var props = map[string]propSpec{
 	"C03": {level: "exploration", quickRuns: 2500, thoroughRuns: 60000, runLimit: 30 * time.Second,
 		requiredProbes: []string{"kind:mut", "kind:del", "kind:exp", "filter:reserved-prefix", "filter:skipuntil", "partial-prefix-delivered"}},
+	"C04": {level: "exploration", quickRuns: 2500, thoroughRuns: 60000, runLimit: 30 * time.Second,
+		requiredProbes: []string{"stale-ack", "repeated-ack", "ack-burst", "absorbed-event-tracked", "offsets-api-compared", "seq-gauge-compared"}},
+	"C05": {level: "exploration", quickRuns: 2500, thoroughRuns: 60000, runLimit: 30 * time.Second,
+		requiredProbes: []string{"ack-during-store-call", "explicit-save", "clean-save-episode", "failed-save-episode", "advanced-by-non-document-event"}},
 }
